@@ -77,16 +77,16 @@ fn setup_chunked(ctx: &mut Ctx) -> R<(Sender, &'static str)> {
         SendFraming::DefaultChunked
     };
     let via_added = explicit && !use_call && ctx.flip();
-    let (s, _head) = match reach_sender_ex(ctx, framing, use_call, method, despite, via_added) {
+    let (s, head) = match reach_sender_ex(ctx, framing, use_call, method, despite, via_added) {
         Ok(v) => v,
-        Err(e) => {
-            if e.contains("emitted after the head was complete") {
-                set_observed(true);
-                fail!("C03.terminator_outside_body_write", "", "a further head write after the head was complete reached the body writer: {}", e);
-            }
-            fail!("FOREIGN", "", "cannot reach the body state: {}", e)
-        }
+        Err(e) => fail!("FOREIGN", "", "cannot reach the body state: {}", e),
     };
+    if let Ok(Some(p)) = crate::refs::parse_request_head(&head) {
+        if p.len != head.len() {
+            set_observed(true);
+            fail!("C03.terminator_outside_body_write", "", "a further head write after the head was complete put {} bytes on the wire: {:?}", head.len() - p.len, crate::json::show_bytes(&head[p.len..]));
+        }
+    }
     set_observed(true);
     ctx.sample(|| format!("chunked request body, api={}, framing header {}, method {}", if use_call { "Call" } else { "Flow" }, if explicit { "supplied" } else { "defaulted" }, method));
     Ok((s, if use_call { "call" } else { "flow" }))
@@ -524,7 +524,9 @@ pub fn c19(ctx: &mut Ctx) -> R {
     let chunked = ctx.sub != 2;
     let use_call = ctx.chance(1, 3);
     let framing = if chunked { SendFraming::DefaultChunked } else { SendFraming::Sized(1 << 50) };
-    let (mut s, _) = match reach_sender(ctx, framing, use_call, "POST", false) {
+    // also a body-less method sent with a body despite the method (no framing header: chunked)
+    let despite = !use_call && ctx.chance(1, 6);
+    let (mut s, _) = match reach_sender(ctx, framing, use_call, if despite { "GET" } else { "POST" }, despite) {
         Ok(v) => v,
         Err(e) => fail!("FOREIGN", "", "cannot reach the body state: {}", e),
     };
